@@ -36,7 +36,7 @@ The judge evaluates the Spec only for fault plans without a fault inside the res
 (`Step.inRestore`): after such a request the rest of the case is outside the theorems' hypotheses.
 
 Logical paths: f/<name> q/<name> p/<name> (name = up to three components [a-z0-9.]+, hidden names included), g, um, dm.
-Tokens: flows v<k> / w<k> (same flow, longer file) valid, quotas q<k> valid, path params anything, gateway g<k>|empty valid,
+Tokens: flows v<k> / w<k> (same flow, longer file) / b<k> (needs the body) / d<k> (all named alike: at most one may be loaded) valid, quotas q<k> valid, path params anything, gateway g<k>|empty valid,
 metrics m<k> loadable; everything else is rejected by the dry run / the metrics loader.
 An item token `@` is a value that is not base64.
 -/
@@ -83,12 +83,17 @@ def tokIs (pre : Char) (t : String) : Bool :=
   | [] => false
 
 def fileValid : Path × Bytes → Bool
-  | (.flow n, t) => !loaded n || tokIs 'v' t || tokIs 'w' t || tokIs 'b' t   -- the flows loader globs `*.yaml` of the directory itself only
+  | (.flow n, t) => !loaded n || tokIs 'v' t || tokIs 'w' t || tokIs 'b' t || tokIs 'd' t   -- the flows loader globs `*.yaml` of the directory itself only
   | (.quota n, t) => !loaded n || tokIs 'q' t  -- the quota loader skips sub-directories too
   | (.gateway, t) => tokIs 'g' t || t == "empty"
   | _ => true
 
-def envValidates (d : Disk) : Bool := d.all fileValid
+/-- Flow tokens d<k> all carry the SAME flow name: the loader refuses two loaded files with one name
+    ("duplicate flow name"). -/
+def dupNamed (d : Disk) : Nat :=
+  (d.filter fun e => match e.1 with | .flow n => loaded n && tokIs 'd' e.2 | _ => false).length
+
+def envValidates (d : Disk) : Bool := d.all fileValid && dupNamed d ≤ 1
 
 def envMetricsOk (d : Disk) : Bool :=
   match d.get .userMetrics with
@@ -133,7 +138,7 @@ def verdict (o : Option Bytes) : String :=
   match o with
   | none => "pass"
   | some t =>
-    if tokIs 'v' t || tokIs 'w' t || tokIs 'b' t then
+    if tokIs 'v' t || tokIs 'w' t || tokIs 'b' t || tokIs 'd' t then
       match (t.drop 1).toString.toNat? with
       | some k => "s" ++ toString (400 + k)
       | none => "s?"
@@ -473,12 +478,17 @@ def whichConjunct (o : Obs String) : String :=
      else "served-by-neither-old-nor-new ") ++
     (if successDisk o then "" else "disk-is-not-the-payload")
 
-def evalPending (s : JudgeSt) (p : Pending) (after : Disk) (probesAfter : String) : JudgeSt :=
+def evalPending (s : JudgeSt) (p : Pending) (after : Disk) (probesAfter : String) (names : String := "") : JudgeSt :=
   let o : Obs String :=
     { ep := p.put.req.ep, methodPut := p.put.req.methodPut, items := bodyItems p.put.req.body,
       gate := p.put.req.gate, status := p.status, phase := p.phase, before := p.before,
       after := after, probesBefore := p.probesBefore, probesAfter := probesAfter, mid := p.mid }
   let s := { s with pending := none, lastLs := some after, lastProbe := some probesAfter }
+  -- an accepted push: the flows that answer are the flows of the tree (every loaded flow file is served)
+  let expected := fmtProbe (probeNames names) (.ready after)
+  if holds o && p.status == 200 && !names.isEmpty && probesAfter != expected && s.fail.isNone then
+    { s with fail := some s!"- status=200 serving-configuration-differs-from-tree verdicts={probesAfter} tree-implies={expected}" }
+  else
   if holds o then s
   else if s.fail.isSome then s
   else
@@ -515,11 +525,11 @@ def judgeStep (s : JudgeSt) (op out : String) : JudgeSt :=
       | some p => if p.after.isNone then { s with pending := some { p with after := some d } }
                   else { s with lastLs := some d }
       | none => { s with lastLs := some d }
-  | ["probe", _] =>
+  | ["probe", names] =>
     match s.pending with
     | some p =>
       match p.after with
-      | some a => evalPending s p a out
+      | some a => evalPending s p a out names
       | none => { s with pending := none, lastProbe := some out }
     | none => { s with lastProbe := some out }
   | "put" :: ws =>
